@@ -13,6 +13,8 @@ import (
 	"context"
 	"encoding/json"
 	"fmt"
+	"os"
+	"path/filepath"
 	"sort"
 	"sync"
 	"testing"
@@ -65,7 +67,14 @@ func (c *C16d) Run(t *testing.T, scn any) *sim.Outcome {
 	}
 	c.rw.Poll()
 	cache := datasource.NewRequestCache[string, string]()
-	cl, err := resolution.NewCombinedNativeClient(resolution.CombinedNativeClientOptions{ProjectDir: t.TempDir()})
+	// one empty project directory per worker (t.TempDir() would leave one directory per scenario
+	// behind until the worker exits)
+	projectDir := filepath.Join(os.Getenv("VERIF_SCRATCH"), "stress-project")
+	if os.Getenv("VERIF_SCRATCH") == "" {
+		projectDir = filepath.Join(os.TempDir(), fmt.Sprintf("verif-stress-%d", os.Getpid()))
+	}
+	os.MkdirAll(projectDir, 0o755)
+	cl, err := resolution.NewCombinedNativeClient(resolution.CombinedNativeClientOptions{ProjectDir: projectDir})
 	if err != nil {
 		out.Violate("harness", "harness:client", "NewCombinedNativeClient: %v", err)
 		return out
